@@ -182,19 +182,39 @@ func Normalize(dir, inventoryPath string) (out string, notes []string, cleanup f
 	}
 	inlined := map[string]int{}
 	var failed []string
-	gaveUp := map[string]bool{} // call sites (file:offset of callee name) that could not be inlined
-	for round := 0; round < 60; round++ {
+	gaveUp := map[string]bool{} // call sites (file:callee name:ordinal) that could not be inlined
+	type undo struct {
+		file    string
+		content []byte
+		site    string
+		key     string
+	}
+	var last *undo
+	seq := 0
+	for round := 0; round < 80; round++ {
 		pkgs, err := loadSyntax(tmp)
 		if err != nil {
-			return dir, nil, cleanup, fmt.Errorf("normalised copy does not type-check after inlining (%v): %w", inlined, err)
+			if last == nil {
+				return dir, nil, cleanup, fmt.Errorf("normalised copy does not type-check: %w", err)
+			}
+			// the last edit broke the build: take it back and leave that call alone
+			if werr := os.WriteFile(last.file, last.content, 0o644); werr != nil {
+				return dir, nil, cleanup, werr
+			}
+			gaveUp[last.site] = true
+			inlined[last.key]--
+			failed = append(failed, fmt.Sprintf("%s (inlined form did not type-check: %v)", last.key, err))
+			last = nil
+			continue
 		}
+		last = nil
 		news := findNew(pkgs, inv)
 		byObj := map[*types.Func]*newFunc{}
 		for _, nf := range news {
 			byObj[nf.obj] = nf
 		}
-		// one call per file per round (offsets shift after an edit); innermost call first
 		progress := false
+	search:
 		for _, p := range pkgs {
 			for i, f := range p.Syntax {
 				filename := p.CompiledGoFiles[i]
@@ -203,19 +223,22 @@ func Normalize(dir, inventoryPath string) (out string, notes []string, cleanup f
 				}
 				var target *ast.CallExpr
 				var tnf *newFunc
+				var tsite string
+				inGo := false
+				ordinal := map[string]int{}
+				var stack []ast.Node
 				ast.Inspect(f, func(n ast.Node) bool {
+					if n == nil {
+						stack = stack[:len(stack)-1]
+						return true
+					}
+					stack = append(stack, n)
 					call, ok := n.(*ast.CallExpr)
 					if !ok {
 						return true
 					}
-					var id *ast.Ident
-					switch fun := ast.Unparen(call.Fun).(type) {
-					case *ast.Ident:
-						id = fun
-					case *ast.SelectorExpr:
-						id = fun.Sel
-					}
-					if id == nil {
+					id := calleeIdent(call)
+					if id == nil || !id.Pos().IsValid() {
 						return true
 					}
 					fobj, _ := p.TypesInfo.Uses[id].(*types.Func)
@@ -223,12 +246,35 @@ func Normalize(dir, inventoryPath string) (out string, notes []string, cleanup f
 					if nf == nil {
 						return true
 					}
-					site := fmt.Sprintf("%s:%d", filename, p.Fset.Position(id.Pos()).Offset)
+					// calls inside the new functions themselves are handled once those are inlined into known code
+					for _, anc := range stack {
+						if fd, isFD := anc.(*ast.FuncDecl); isFD {
+							if o, _ := p.TypesInfo.Defs[fd.Name].(*types.Func); o != nil && byObj[o] != nil {
+								return true
+							}
+						}
+					}
+					encl := ""
+					for _, anc := range stack {
+						if fd, isFD := anc.(*ast.FuncDecl); isFD {
+							encl = FuncKey(p.PkgPath, fd)
+						}
+					}
+					ordinal[encl+">"+nf.key]++
+					site := fmt.Sprintf("%s>%s#%d", encl, nf.key, ordinal[encl+">"+nf.key])
 					if gaveUp[site] {
 						return true
 					}
-					// prefer the last (innermost / latest) candidate so that nested calls go first
-					target, tnf = call, nf
+					target, tnf, tsite = call, nf, site
+					inGo = false
+					if len(stack) >= 2 {
+						switch st := stack[len(stack)-2].(type) {
+						case *ast.GoStmt:
+							inGo = st.Call == call
+						case *ast.DeferStmt:
+							inGo = st.Call == call
+						}
+					}
 					return true
 				})
 				if target == nil {
@@ -238,34 +284,61 @@ func Normalize(dir, inventoryPath string) (out string, notes []string, cleanup f
 				if err != nil {
 					return dir, nil, cleanup, err
 				}
-				calleeFile := tnf.pkg.Fset.File(tnf.decl.Pos()).Name()
-				calleeContent, err := os.ReadFile(calleeFile)
+				calleeFileName := tnf.pkg.Fset.File(tnf.decl.Pos()).Name()
+				calleeContent, err := os.ReadFile(calleeFileName)
 				if err != nil {
 					return dir, nil, cleanup, err
+				}
+				var calleeFile *ast.File
+				for _, cf := range tnf.pkg.Syntax {
+					if cf.Pos() <= tnf.decl.Pos() && tnf.decl.End() <= cf.End() {
+						calleeFile = cf
+					}
 				}
 				logf := func(string, ...any) {}
-				callee, err := inline.AnalyzeCallee(logf, tnf.pkg.Fset, tnf.pkg.Types, tnf.pkg.TypesInfo, tnf.decl, calleeContent)
-				site := fmt.Sprintf("%s:%d", filename, p.Fset.Position(calleeIdent(target).Pos()).Offset)
-				if err != nil {
-					gaveUp[site] = true
-					failed = append(failed, fmt.Sprintf("%s (%v)", tnf.key, err))
-					continue
+				var newContent []byte
+				why := ""
+				if callee, err := inline.AnalyzeCallee(logf, tnf.pkg.Fset, tnf.pkg.Types, tnf.pkg.TypesInfo, tnf.decl, calleeContent); err != nil {
+					why = err.Error()
+				} else if res, err := inline.Inline(&inline.Caller{Fset: p.Fset, Types: p.Types, Info: p.TypesInfo, File: f, Call: target, Content: content}, callee, &inline.Options{Logf: logf}); err != nil {
+					why = err.Error()
+				} else if res.Literalized && !inGo {
+					why = "needs a function literal"
+				} else {
+					newContent = res.Content
 				}
-				res, err := inline.Inline(&inline.Caller{Fset: p.Fset, Types: p.Types, Info: p.TypesInfo, File: f, Call: target, Content: content}, callee, &inline.Options{Logf: logf})
-				if err != nil {
-					gaveUp[site] = true
-					failed = append(failed, fmt.Sprintf("%s at %s (%v)", tnf.key, p.Fset.Position(target.Pos()), err))
-					continue
+				if newContent == nil {
+					seq++
+					sc := &spliceCtx{fset: p.Fset, callerPkg: p.Types, callerInfo: p.TypesInfo, callerFile: f, callerSrc: content,
+						calleeDecl: tnf.decl, calleeInfo: tnf.pkg.TypesInfo, calleeSrc: calleeContent, calleeFile: calleeFile, seq: seq}
+					if out, err := sc.splice(target); err != nil {
+						why += "; " + err.Error()
+					} else {
+						newContent = out
+					}
 				}
-				if err := os.WriteFile(filename, res.Content, 0o644); err != nil {
+				if newContent == nil {
+					gaveUp[tsite] = true
+					failed = append(failed, fmt.Sprintf("%s in %s (%s)", strings.TrimPrefix(tnf.key, Mod), strings.TrimPrefix(tsite[:strings.Index(tsite, ">")], Mod), why))
+					progress = true // look for the next site
+					break search
+				}
+				if err := os.WriteFile(filename, newContent, 0o644); err != nil {
 					return dir, nil, cleanup, err
 				}
+				last = &undo{filename, content, tsite, tnf.key}
 				inlined[tnf.key]++
 				progress = true
+				break search
 			}
 		}
 		if !progress {
 			break
+		}
+	}
+	for k, n := range inlined {
+		if n <= 0 {
+			delete(inlined, k)
 		}
 	}
 	var keys []string
@@ -294,7 +367,9 @@ func calleeIdent(call *ast.CallExpr) *ast.Ident {
 	case *ast.SelectorExpr:
 		return fun.Sel
 	}
-	return &ast.Ident{NamePos: token.NoPos}
+	return nil
 }
+
+var _ = token.NoPos
 
 var _ = filepath.Join
